@@ -45,11 +45,18 @@ TStep ==
                       /\ MatEq(tr, "interpDimension (N-D) coordinate of column " \o ToString(q - 1), <<c.gotz>>,
                                <<Applied(c.xs, c.nxs, tr.ex, c.xs)>>)
             [] tr.kind = "sig" ->
-                 IF tr.itype = "linear"
-                 THEN MatEq(tr, "interpSigma(linear) values", <<tr.got>>,
-                            <<Applied(Mid2(tr.F), Mid2(tr.T), FALSE, tr.d)>>)
-                 ELSE MatEq(tr, "interpSigma(conserve) values", <<tr.got>>,
-                            <<[j \in 1..(Len(tr.T) - 1) |-> Regrid(tr.F, tr.T, tr.d, j)]>>)
+                 \* with a new model top (tr.vt1 # tr.vt0) the file's edges are first
+                 \* expressed relative to that top; the target edges tr.T are then in
+                 \* 1/tr.k2 units, like the converted source edges
+                 LET newtop == tr.vt1 # tr.vt0
+                     Fs == IF newtop THEN Resigma(tr.F, 8, tr.k2, tr.vt0, tr.vt1) ELSE tr.F
+                 IN /\ ChkT(tr, 1, "generator: converted sigma edges are not whole units",
+                            newtop => ResigmaExact(tr.F, 8, tr.k2, tr.vt0, tr.vt1))
+                    /\ IF tr.itype = "linear"
+                       THEN MatEq(tr, "interpSigma(linear) values", <<tr.got>>,
+                                  <<Applied(Mid2(Fs), Mid2(tr.T), FALSE, tr.d)>>)
+                       ELSE MatEq(tr, "interpSigma(conserve) values", <<tr.got>>,
+                                  <<[j \in 1..(Len(tr.T) - 1) |-> Regrid(Fs, tr.T, tr.d, j)]>>)
   /\ TrAccept(tr)
 TSpec == TInit /\ [][TStep]_tvars
 =================================================================================
